@@ -69,10 +69,15 @@ type wsConn struct {
 
 	readError chan error
 
-	frameExecQueue chan []byte
+	frameExecQueue chan queuedFrame
 
 	// outgoing messages
 	writeLk sync.Mutex
+
+	// connGen counts the connections this wsConn has used (incremented on every
+	// reconnect). Responses to calls received on an earlier connection must not
+	// be written to a later one: the peer numbers its requests per connection.
+	connGen uint64
 
 	// ////
 	// Client related
@@ -98,6 +103,13 @@ type wsConn struct {
 	chanCtr uint64
 
 	registerCh chan outChanReg
+}
+
+// queuedFrame is a received frame together with the generation of the
+// connection it was read from.
+type queuedFrame struct {
+	buf []byte
+	gen uint64
 }
 
 type chanHandler struct {
@@ -135,8 +147,21 @@ func (c *wsConn) nextMessage() {
 // nextWriter waits for writeLk and invokes the cb callback with WS message
 // writer when the lock is acquired
 func (c *wsConn) nextWriter(cb func(io.Writer)) {
+	c.nextWriterGen(atomic.LoadUint64(&c.connGen), cb)
+}
+
+// nextWriterGen is nextWriter for a response to a request that was received on
+// connection generation gen; if the connection has been replaced since, the
+// response is discarded.
+func (c *wsConn) nextWriterGen(gen uint64, cb func(io.Writer)) {
 	c.writeLk.Lock()
 	defer c.writeLk.Unlock()
+
+	if gen != atomic.LoadUint64(&c.connGen) {
+		log.Warn("dropping response to a call received on a previous connection")
+		cb(io.Discard)
+		return
+	}
 
 	wcl, err := c.conn.NextWriter(websocket.TextMessage)
 	if err != nil {
@@ -490,7 +515,7 @@ func (c *wsConn) handleResponse(frame frame) {
 	delete(c.inflight, frame.ID)
 }
 
-func (c *wsConn) handleCall(ctx context.Context, frame frame) {
+func (c *wsConn) handleCall(ctx context.Context, frame frame, gen uint64) {
 	if c.handler == nil {
 		log.Error("handleCall on client with no reverse handler")
 		return
@@ -515,7 +540,9 @@ func (c *wsConn) handleCall(ctx context.Context, frame frame) {
 		}
 	}
 	if frame.ID != nil {
-		nextWriter = c.nextWriter
+		nextWriter = func(cb func(io.Writer)) {
+			c.nextWriterGen(gen, cb)
+		}
 
 		c.handlingLk.Lock()
 		c.handling[frame.ID] = cancel
@@ -536,7 +563,7 @@ func (c *wsConn) handleCall(ctx context.Context, frame frame) {
 }
 
 // handleFrame handles all incoming messages (calls and responses)
-func (c *wsConn) handleFrame(ctx context.Context, frame frame) {
+func (c *wsConn) handleFrame(ctx context.Context, frame frame, gen uint64) {
 	// Get message type by method name:
 	// "" - response
 	// "xrpc.*" - builtin
@@ -551,7 +578,7 @@ func (c *wsConn) handleFrame(ctx context.Context, frame frame) {
 	case chClose:
 		c.handleChanClose(frame)
 	default: // Remote call
-		c.handleCall(ctx, frame)
+		c.handleCall(ctx, frame, gen)
 	}
 }
 
@@ -679,6 +706,7 @@ func (c *wsConn) tryReconnect(ctx context.Context) bool {
 
 		c.writeLk.Lock()
 		c.conn = conn
+		atomic.AddUint64(&c.connGen, 1)
 		c.errLk.Lock()
 		c.incomingErr = nil
 		c.errLk.Unlock()
@@ -700,13 +728,14 @@ func (c *wsConn) readFrame(ctx context.Context, r io.Reader) {
 	// json.NewDecoder(r).Decode would read the whole frame as well, so might as well do it
 	// with ReadAll which should be much faster
 	// use a autoResetReader in case the read takes a long time
+	gen := atomic.LoadUint64(&c.connGen)
 	buf, err := io.ReadAll(c.autoResetReader(r)) // todo buffer pool
 	if err != nil {
 		c.readError <- xerrors.Errorf("reading frame into a buffer: %w", err)
 		return
 	}
 
-	c.frameExecQueue <- buf
+	c.frameExecQueue <- queuedFrame{buf: buf, gen: gen}
 	if len(c.frameExecQueue) > 2*cap(c.frameExecQueue)/3 { // warn at 2/3 capacity
 		log.Warnw("frame executor queue is backlogged", "queued", len(c.frameExecQueue), "cap", cap(c.frameExecQueue))
 	}
@@ -720,9 +749,9 @@ func (c *wsConn) frameExecutor(ctx context.Context) {
 		select {
 		case <-ctx.Done():
 			return
-		case buf := <-c.frameExecQueue:
+		case qf := <-c.frameExecQueue:
 			var frame frame
-			if err := json.Unmarshal(buf, &frame); err != nil {
+			if err := json.Unmarshal(qf.buf, &frame); err != nil {
 				log.Warnw("failed to unmarshal frame", "error", err)
 				// todo send invalid request response
 				continue
@@ -736,7 +765,7 @@ func (c *wsConn) frameExecutor(ctx context.Context) {
 				continue
 			}
 
-			c.handleFrame(ctx, frame)
+			c.handleFrame(ctx, frame, qf.gen)
 		}
 	}
 }
@@ -749,7 +778,7 @@ func (c *wsConn) handleWsConn(ctx context.Context) {
 
 	c.incoming = make(chan io.Reader)
 	c.readError = make(chan error, 1)
-	c.frameExecQueue = make(chan []byte, maxQueuedFrames)
+	c.frameExecQueue = make(chan queuedFrame, maxQueuedFrames)
 	c.inflight = map[interface{}]clientRequest{}
 	c.handling = map[interface{}]context.CancelFunc{}
 	c.chanHandlers = map[uint64]*chanHandler{}
